@@ -3,8 +3,17 @@
 package roles
 
 import (
+	"time"
+
 	"shanhu.io/g/errcode"
+	"shanhu.io/g/pisces"
 )
+
+// VerifNewWithKV creates a Roles over a caller-supplied table (the harness
+// passes a KV whose operations it can pause).
+func VerifNewWithKV(kv *pisces.KV) *Roles {
+	return &Roles{t: kv, passCodeExpiry: 10 * time.Minute}
+}
 
 // VerifRoleState is the stored record of one role as the verification
 // harness needs to see it: the fields of the passcode that the public API
